@@ -57,7 +57,7 @@ def gen_script(rng):
         elif r < 0.7:
             ops.append("uuid")
         else:
-            ops.append(["sub", rng.randrange(3)])
+            ops.append(["sub", rng.choice([0, 1, 2, -1])])
     return ops
 
 
@@ -107,6 +107,10 @@ def judge_records(records, scripts, app, V, hooks, wit_base):
             ra = [r[1] for r in a if r[0] in ("random", "uuid")]
             rb = [r[1] for r in b if r[0] in ("random", "uuid")]
             common = set(map(str, ra)) & set(map(str, rb))
+            sa = {r[2] for r in a if r[0] == "sub"}
+            sb_ = {r[2] for r in b if r[0] == "sub"}
+            if sa & sb_:
+                V.append({"sig": "workflows-share-sub-invocation", "what": f"workflows {wids[i][:8]} and {wids[j][:8]} were handed the same sub-task invocation {sorted(sa & sb_)[0][:8]} (each workflow launches its own)", "witness": wit_base})
             if common:
                 V.append({"sig": "workflows-share-values", "what": f"workflows {wids[i][:8]} and {wids[j][:8]} observed the same random/uuid value(s) {sorted(common)[:2]}", "witness": wit_base})
     # 4. recorded workflow data of a workflow equals what it observed
@@ -163,8 +167,9 @@ def run_sim(case, V, hooks, distinct):
             try:
                 out = sim.run(build, client=client)
                 res = out["result"]
-                if "roots_final_at" not in res or out["error"]:
-                    if out["error"]:
+                expected_failure = bool(out["error"]) and "leaf" in out["error"] and "fails" in out["error"]   # the failing leaf's own exception leaving its thread
+                if "roots_final_at" not in res or (out["error"] and not expected_failure):
+                    if out["error"] and not expected_failure:
                         V.append({"sig": "harness-error", "what": out["error"][:400], "witness": {"scripts": scripts}})
                     else:
                         inconc = f"simulation hit the step bound ({out['steps']})"
